@@ -1,10 +1,11 @@
 #!/usr/bin/env python3
-"""seed_import.py <out-dir> <ID> <mN> : confirm a seeded change independently, run the property's
+"""seed_import.py <out-dir> <ID> <mN> [stored-name] : confirm a seeded change independently, run the property's
 check against it, and store it under /verif/seeded/<ID>-<mN>/ (only if confirmed)."""
 import json, os, re, shutil, subprocess, sys, time
 out, pid, mn = sys.argv[1:4]
 src = os.path.join(out, mn)
-dst = f"/verif/seeded/{pid}-{mn}"
+name = sys.argv[4] if len(sys.argv) > 4 else mn   # stored name (round 2: m3, m4)
+dst = f"/verif/seeded/{pid}-{name}"
 r = subprocess.run(["/verif/tools/confirm_seed.sh", src], capture_output=True, text=True)
 line = [l for l in r.stdout.splitlines() if l.startswith("{")]
 conf = json.loads(line[-1]) if line else {"confirmed": False, "error": r.stdout[-500:] + r.stderr[-500:]}
@@ -14,7 +15,7 @@ checks = {}
 for tier in ["quick"]:
     t0 = time.time()
     c = subprocess.run(["/verif/tools/seedcheck.sh", os.path.join(src, "patch.diff"), pid, tier], capture_output=True, text=True)
-    sigs = [(a, b) for a, b in re.findall(r"^\s+\[([^\]]+)\] (\S+?): ", c.stdout, re.M) if not a.startswith("unrewritten")]
+    sigs = [(a, b) for a, b in re.findall(r"^\s+\[([^\]]+)\] (.+?): ", c.stdout, re.M) if not a.startswith("unrewritten")]
     checks[tier] = {"exit": c.returncode, "detected": c.returncode == 1, "wall_s": round(time.time() - t0, 1),
                     "reported": [f"{a}: {b}" for a, b in sigs][:6]}
 os.makedirs(dst, exist_ok=True)
@@ -23,7 +24,7 @@ for f in os.listdir(src):
         continue
     shutil.copy(os.path.join(src, f), os.path.join(dst, f))
 notes = open(os.path.join(src, "NOTES.md")).read() if os.path.exists(os.path.join(src, "NOTES.md")) else ""
-meta = {"property": pid, "id": f"{pid}-{mn}", "origin": "independent sub-agent given only the property text and a scratch worktree",
+meta = {"property": pid, "id": f"{pid}-{name}", "origin": "independent sub-agent given only the property text and a scratch worktree",
         "needs_to_manifest": "see NOTES.md section (b)",
         "confirmed_by": {"cmd": "tools/confirm_seed.sh (scratch worktree: build, unedited suite, demonstration with/without the change)",
                           "suite_new_failures": conf.get("suite_new_failures"), "demo_with_change": conf.get("demo_with_change"),
